@@ -99,7 +99,13 @@ func genC08(t *rapid.T) CacheCase {
 }
 
 func runCacheHistory(env *fw.Env, c CacheCase, withFaults bool, judgeMinimizeLatency bool) *fw.Failure {
-	storeID, modelID, f := semkit.SetupWorld(env, semkit.Plain(), c.World)
+	setup := semkit.Plain()
+	if c.Cfg.Backend == "sqlite" {
+		if sp, _, err := sqliteServers(); err == nil {
+			setup = sp
+		}
+	}
+	storeID, modelID, f := semkit.SetupWorld(env, setup, c.World)
 	if f != nil || storeID == "" {
 		return f
 	}
@@ -227,6 +233,11 @@ func runCacheHistory(env *fw.Env, c CacheCase, withFaults bool, judgeMinimizeLat
 						// userset/wildcard subjects on the weighted engine legitimately differ from the
 						// reference (C03): the oracle is the same engine with caching disabled
 						nc, _ := v2Server()
+						if c.Cfg.Backend == "sqlite" {
+							if _, sv2, err := sqliteServers(); err == nil {
+								nc = sv2
+							}
+						}
 						ba, be := checkWithConsistency(nc, context.Background(), storeID, modelID, op.Req, true)
 						// the weighted engine's answer for such subjects also varies with the strategy its planner
 						// picks (recorded finding under C03), so an answer that satisfies the reference is accepted too
